@@ -48,6 +48,21 @@ theorem auth_fail_no_change (a : AclState) (cid : Nat) (cmd : List Bytes) (sha :
   repeat' split
   all_goals simp_all
 
+/-- **Any number of failed attempts, on any connections, changes nothing.** If every attempt of a run is refused, the
+    ACL state after the run — users, rules, and the identity and authentication flag of *every* connection — is the
+    state before it. Unbounded in the length of the run; all argument forms (AUTH pw, AUTH user pw, malformed). -/
+theorem failed_attempts_no_change (xs : List (Nat × List Bytes × Bytes)) (a : AclState)
+    (h : ∀ o ∈ (authRun a xs).2, o ≠ .ok) : (authRun a xs).1 = a := by
+  induction xs generalizing a with
+  | nil => rfl
+  | cons x rest ih =>
+    obtain ⟨cid, cmd, sha⟩ := x
+    simp only [authRun] at h ⊢
+    have h0 : (authenticate a cid cmd sha).2 ≠ .ok := h _ (by simp)
+    have h1 := auth_fail_no_change a cid cmd sha h0
+    rw [h1] at h ⊢
+    exact ih a (fun o ho => h o (by simp [ho]))
+
 /-- a successful AUTH binds the connection to exactly the named user, authenticated -/
 theorem auth_success_identity (a : AclState) (cid : Nat) (c name pw sha : Bytes) (uid : Nat)
     (hf : a.find name = some uid) (h : (authenticate a cid [c, name, pw] sha).2 = .ok) :
@@ -186,5 +201,9 @@ example : (authenticate tbl 7 [b "auth", b "alice", b "secret"] (b "abc123")).2 
 
 /-- a digest supplied *as the password* does not authenticate (the type tag is compared) -/
 example : (authenticate tbl 7 [b "auth", b "alice", b "abc123"] (b "0000")).2 ≠ .ok := by decide
+
+/-- non-vacuity of `failed_attempts_no_change`: two refused attempts on two connections against the concrete table -/
+example : ∀ o ∈ (authRun tbl [(1, [b "auth", b "nosuchuser", b "x"], b "00"), (2, [b "auth"], b "00")]).2, o ≠ .ok := by
+  decide
 
 end Sugar.Props.C11
